@@ -610,7 +610,9 @@ struct Totals {
 /// BFS over refinement histories; `children` = child positions that may be
 /// refined below the block roots (all 8 for the full search)
 static void bfs(const Cfg &cfg, int budget, int maxleaflevel, const std::vector< int > &children, bool altbuilds,
-                Result &R, Counters &Ctot, Totals &T, const std::string &famname) {
+                Result &R, Counters &Ctot, Totals &T, const std::string &famname, int budget2 = 0, int maxleaflevel2 = 0) {
+  // a state is inside the bound if (refinements <= budget and deepest leaf <= maxleaflevel) or
+  // (refinements <= budget2 and deepest leaf <= maxleaflevel2)
   std::map< KeyVec, StateInfo > layer;
   {
     Counters c;
@@ -625,7 +627,7 @@ static void bfs(const Cfg &cfg, int budget, int maxleaflevel, const std::vector<
   bool allowed[8] = {false};
   for (int c : children)
     allowed[c] = true;
-  for (int n = 0; n < budget; ++n) {
+  for (int n = 0; n < std::max(budget, budget2); ++n) {
     std::vector< const StateInfo * > cur;
     std::vector< const KeyVec * > curcanon;
     for (auto &kv : layer) {
@@ -649,8 +651,13 @@ static void bfs(const Cfg &cfg, int budget, int maxleaflevel, const std::vector<
         M.build(cfg, *curcanon[is]);
         for (uint64_t leaf : M.leaves) {
           const int L = key_level(leaf);
-          if (L + 1 > maxleaflevel)
-            continue;
+          {
+            const int nref = n + 1, deep = std::max(M.maxlevel, L + 1);
+            const bool in1 = nref <= budget && deep <= maxleaflevel;
+            const bool in2 = nref <= budget2 && deep <= maxleaflevel2;
+            if (!in1 && !in2)
+              continue;
+          }
           if (L > 0) {
             const int cpos = (int)(((leaf & 0xffffffffull) >> (3 * (L - 1))) & 7);
             if (!allowed[cpos])
@@ -716,7 +723,7 @@ static void bfs(const Cfg &cfg, int budget, int maxleaflevel, const std::vector<
     T.states += next.size();
     if (!next.empty()) {
       T.maxdepth_seen = std::max< uint64_t >(T.maxdepth_seen, n + 1);
-      if (next.size() % 7 == 1 || n + 1 == budget) {
+      if (next.size() % 7 == 1 || n + 1 == std::max(budget, budget2)) {
         auto it = next.begin();
         std::advance(it, next.size() / 2);
         R.sample(fmt("{\"family\": \"%s\", \"cfg\": \"%s\", \"refinements\": %d, \"states_in_layer\": %zu, "
@@ -911,6 +918,8 @@ int main(int argc, char **argv) {
   struct Plan {
     std::string cfg;
     int budget, depth;
+    int budget2 = 0, depth2 = 0;
+    Plan(const std::string &c, int b, int d, int b2 = 0, int d2 = 0) : cfg(c), budget(b), depth(d), budget2(b2), depth2(d2) {}
   };
   // "--planA cfg:budget:depth,cfg:budget:depth" overrides a plan (experiments)
   auto parse_plan = [&](const std::string &arg, std::vector< Plan > &plan) {
@@ -921,24 +930,24 @@ int main(int argc, char **argv) {
     char *s = strdup(v.c_str());
     for (char *t = strtok(s, ","); t; t = strtok(nullptr, ",")) {
       char name[64];
-      int b, d;
-      if (sscanf(t, "%63[^:]:%d:%d", name, &b, &d) == 3)
-        plan.push_back({name, b, d});
+      int b, d, b2 = 0, d2 = 0;
+      if (sscanf(t, "%63[^:]:%d:%d:%d:%d", name, &b, &d, &b2, &d2) >= 3)
+        plan.push_back(Plan(name, b, d, b2, d2));
     }
     free(s);
   };
   std::vector< Plan > planA;
   if (!th)
-    planA = {{"1x1x1", 4, 3}, {"2x1x1", 3, 3}, {"3x1x1", 3, 3}, {"3x2x1", 3, 3}};
+    planA = {{"1x1x1", 5, 3}, {"2x1x1", 4, 3}, {"3x1x1", 4, 3}, {"3x2x1", 3, 3}};
   else
-    planA = {{"1x1x1", 5, 4}, {"2x1x1", 4, 4}, {"3x1x1", 4, 4}, {"3x2x1", 4, 4}, {"1x1x2", 3, 3}, {"1x2x3", 3, 3}};
+    planA = {{"1x1x1", 6, 3, 5, 4}, {"2x1x1", 5, 3, 4, 4}, {"3x1x1", 4, 4}, {"3x2x1", 4, 4}, {"1x1x2", 4, 3}, {"1x2x3", 3, 3}};
   parse_plan("planA", planA);
   for (auto &p : planA) {
     if (R.out_of_time()) {
       R.hit_deadline(std::string("family A not started for ") + p.cfg);
       continue;
     }
-    bfs(*find_cfg(cfgs, p.cfg), p.budget, p.depth, all8, true, R, C, T, "A:full");
+    bfs(*find_cfg(cfgs, p.cfg), p.budget, p.depth, all8, true, R, C, T, "A:full", p.budget2, p.depth2);
   }
   const uint64_t statesA = T.states, transA = T.transitions;
 
@@ -952,9 +961,9 @@ int main(int argc, char **argv) {
       std::vector< int > ch = {pr[0], pr[1]};
       std::vector< Plan > planB;
       if (!th)
-        planB = {{"1x1x1", 6, 3}, {"2x1x1", 4, 3}};
+        planB = {{"1x1x1", 6, 3}, {"2x1x1", 6, 3}};
       else
-        planB = {{"1x1x1", 12, 4}, {"2x1x1", 7, 4}, {"3x2x1", 5, 4}};
+        planB = {{"1x1x1", 12, 4}, {"2x1x1", 8, 4}, {"3x2x1", 6, 3}};
       parse_plan("planB", planB);
       for (auto &p : planB) {
         if (R.out_of_time()) {
